@@ -20,4 +20,26 @@ RadicalStarts(b) == { i \in 1..Len(b) : i + 2 <= Len(b) /\ b[i] = "^" /\ b[i + 1
 Radicals(b) == IF Len(b) >= 2 /\ b[1] = "|" /\ b[Len(b)] = "|"
                THEN UNION { CxList(b, i + 3, 0, FALSE, {}) : i \in RadicalStarts(b) }
                ELSE {}
+
+\* ---- fragment grouping  f:0.1,3.4  -> sequence of sets of 0-based molecule indices ----
+RECURSIVE CxGroups(_, _, _, _, _, _)
+\* cur: number being read, have: a digit was seen, grp: current group, acc: finished groups
+CxGroups(b, i, cur, have, grp, acc) ==
+  IF i <= Len(b) /\ b[i] \in CxDigits THEN CxGroups(b, i + 1, cur * 10 + CxVal(b[i]), TRUE, grp, acc)
+  ELSE IF i <= Len(b) /\ b[i] = "." /\ have THEN CxGroups(b, i + 1, 0, FALSE, grp \cup {cur}, acc)
+  ELSE IF i <= Len(b) /\ b[i] = "," /\ have THEN CxGroups(b, i + 1, 0, FALSE, {}, Append(acc, grp \cup {cur}))
+  ELSE IF have THEN Append(acc, grp \cup {cur}) ELSE acc
+FragStarts(b) == { i \in 1..Len(b) : i + 1 <= Len(b) /\ b[i] = "f" /\ b[i + 1] = ":" }
+Fragments(b) == IF Len(b) >= 2 /\ b[1] = "|" /\ b[Len(b)] = "|" /\ FragStarts(b) # {}
+                THEN CxGroups(b, (CHOOSE i \in FragStarts(b) : \A j \in FragStarts(b) : i <= j) + 2, 0, FALSE, {}, <<>>)
+                ELSE <<>>
+
+\* ---- splitting a character sequence ----
+RECURSIVE SplitAt(_, _, _, _, _)
+SplitAt(b, ch, i, cur, acc) == IF i > Len(b) THEN Append(acc, cur)
+                               ELSE IF b[i] = ch THEN SplitAt(b, ch, i + 1, <<>>, Append(acc, cur))
+                               ELSE SplitAt(b, ch, i + 1, Append(cur, b[i]), acc)
+Split(b, ch) == SplitAt(b, ch, 1, <<>>, <<>>)
+RECURSIVE JoinDot(_)
+JoinDot(seqs) == IF Len(seqs) = 0 THEN <<>> ELSE IF Len(seqs) = 1 THEN seqs[1] ELSE seqs[1] \o <<".">> \o JoinDot(Tail(seqs))
 =============================================================================
